@@ -82,7 +82,7 @@ func bytesOfIndex(i uint64, n int) []byte {
 }
 
 func runC09(r *engine.Run) {
-	r.Rule = "E1 enumeration per decoder entry point, oracle: returns a value or an error, no panic (recovered and reported per input), no hang (watchdog), input buffer and its spare capacity byte-identical afterwards, stream decoders make progress (#commands <= len(input)). Frame decode: control-byte product (MHDR x length 0..40 x FCtrl x byte1 x FPort byte x filler) plus lengths up to 512 with four fillers and 17 lengths around 255x16 bytes and 2^16 (the payload cipher's 8-bit block counter, 16-bit length fields), followed on accepted frames by FOpts/FRMPayload command decode and decrypt-then-decode with two keys; base64: all strings of length <= 4 over a 10-symbol alphabet; MAC command stream decoders: all byte strings of length <= 3 x direction x 2 registry states, lengths 4..32 with all 65536 leading byte pairs; decrypt-then-decode with plaintext ranging over all 2-byte strings; join-accept decrypt over ciphertext lengths 0..40 and plaintext control bytes; CFList lengths 0..20 x 256 types; MACCommand CID x direction x length 0..8; the four application-layer command decoders: all strings <= 2 bytes, 3-byte strings (quick: 18 leading CIDs; thorough: all), (CID, second byte) all 65536 x lengths 0..40 x 2 fillers; backend text/JSON unmarshalers: all strings of length <= 5 over a 14-symbol alphabet, well-formed text of every length 0..130 in 8 patterns x {plain, 0x} (also through json.Unmarshal into a payload struct) and every payload struct with each field (and each pair, thorough) set to each of 10 JSON atoms. Cost: for every text decoder, the frame text decoder, JSON into a payload struct and the frame + MAC-command stream decoder, bytes allocated on inputs of 16k / 32k / 64k characters (four patterns) may not more than triple per doubling (a deterministic proxy for 'time linear in the input'). Non-trivial: the decoder returned a value (not an error)."
+	r.Rule = "E1 enumeration per decoder entry point, oracle: returns a value or an error, no panic (recovered and reported per input), no hang (watchdog), input buffer and its spare capacity byte-identical afterwards, stream decoders make progress (#commands <= len(input)). Frame decode: control-byte product (MHDR x length 0..40 x FCtrl x byte1 x FPort byte x filler) plus lengths up to 512 with four fillers and 17 lengths around 255x16 bytes and 2^16 (the payload cipher's 8-bit block counter, 16-bit length fields), followed on accepted frames by FOpts/FRMPayload command decode and decrypt-then-decode with two keys; base64: all strings of length <= 4 over a 10-symbol alphabet; MAC command stream decoders: all byte strings of length <= 3 x direction x 2 registry states, lengths 4..32 with all 65536 leading byte pairs; decrypt-then-decode with plaintext ranging over all 2-byte strings; join-accept decrypt over ciphertext lengths 0..40 and plaintext control bytes; CFList lengths 0..20 x 256 types; MACCommand CID x direction x length 0..8; the four application-layer command decoders: all strings <= 2 bytes, 3-byte strings (quick: 18 leading CIDs; thorough: all), (CID, second byte) all 65536 x lengths 0..40 x 2 fillers, every length 41..512 x leading CID x 3 fillers (several hundred commands in one payload); backend text/JSON unmarshalers: all strings of length <= 5 over a 14-symbol alphabet, well-formed text of every length 0..130 in 8 patterns x {plain, 0x} (also through json.Unmarshal into a payload struct) and every payload struct with each field (and each pair, thorough) set to each of 10 JSON atoms. Cost: for every text decoder, the frame text decoder, JSON into a payload struct and the frame + MAC-command stream decoder, bytes allocated on inputs of 16k / 32k / 64k characters (four patterns) may not more than triple per doubling (a deterministic proxy for 'time linear in the input'). Non-trivial: the decoder returned a value (not an error)."
 	frameHistory(r, 2)
 	manyKeysHistory(r)
 	r.Rule += " E3 (schedules): the FOpts and FRMPayload MAC-command decoders against two concurrent registrations of proprietary commands, every interleaving (preemption-bounded and unbounded with state-key pruning), sync.RWMutex modelled with pending writers excluding new readers: every thread returns, no deadlock."
@@ -540,6 +540,21 @@ func runC09(r *engine.Run) {
 			for v := 0; v < 256; v++ {
 				b := bytes.Repeat([]byte{fill}, n)
 				b[0], b[1] = cid, byte(v)
+				appOne(c, a, uplink, b)
+			}
+		})
+		// long inputs (the quantifier's lengths up to 512: a payload of several hundred commands):
+		// every length 41..512 x leading CID x {the CID byte repeated, zero fill, 0xFF fill}
+		r.PartDims("app/"+a.name+"/long", []string{"length:41..512", "cid:256 (inner)", "filler{cid repeated,00,ff}", "direction:2"}, 472*3*2, func(c *engine.Case) {
+			i := c.Index
+			uplink := i%2 == 1
+			i /= 2
+			fillKind := int(i % 3)
+			n := 41 + int(i/3)
+			for cid := 0; cid < 256; cid++ {
+				fill := []byte{byte(cid), 0x00, 0xFF}[fillKind]
+				b := bytes.Repeat([]byte{fill}, n)
+				b[0] = byte(cid)
 				appOne(c, a, uplink, b)
 			}
 		})
